@@ -322,7 +322,8 @@ func c10RacePrograms(tier string) []*Spec {
 			sp := &Spec{Name: "c10r-shared-average", Refresh: rf, Q: -1}
 			sp.Bars = []BarSpec{{Total: 5, App: []DecorSpec{{Builtin: "sharedavg-eta"}}}, {Total: 5, App: []DecorSpec{{Builtin: "sharedavg-eta"}}}}
 			sp.Main = []Op{{K: "add", B: 0}, {K: "add", B: 1}}
-			sp.Clients = [][]Op{{{K: "ewma", B: 0, N: 1}, {K: "ewma", B: 0, N: 4}}, {{K: "ewma", B: 1, N: 2}, {K: "ewma", B: 1, N: 3}}}
+			// only bar 0 feeds the average (its update goroutines take the lock); bar 1 just reads it when it is drawn
+			sp.Clients = [][]Op{{{K: "ewma", B: 0, N: 1}, {K: "ewma", B: 0, N: 1}, {K: "ewma", B: 0, N: 3}}, {{K: "incr", B: 1, N: 2}, {K: "incr", B: 1, N: 3}}}
 			if rf == "manual" {
 				sp.Clients = append(sp.Clients, []Op{{K: "refresh"}, {K: "refresh"}, {K: "refresh"}})
 			}
